@@ -102,7 +102,7 @@ impl Check for C14 {
         } else {
             random_gc(rng)
         };
-        Scn { case, form, gc, tape: Tape::random(rng, 8), fuel: 3_000_000 }
+        Scn { case, form, gc, tape: Tape::random(rng, 8), fuel: 400_000 }
     }
 
     fn shrink(&self, scn: &Scn) -> Vec<Scn> {
